@@ -55,6 +55,11 @@ RECURSION = {
     "try-finally": "var depth = 0; var f = function(){ depth++; try { return f(); } finally { depth = depth + 0; } }; f();",
     "catch-and-recurse": "var depth = 0; var f = function(){ depth++; try { throw 1; } catch (e) { return f(); } }; f();",
     "eval": "var depth = 0; var f = function(){ depth++; return eval('f()'); }; f();",
+    # the whole recursion lives in code that a nested interpreter runs
+    "in-eval": "var depth = 0; var run = function(){ return eval('var f = function(){ depth++; return f(); }; f()'); }; run();",
+    "in-Function": "var depth = 0; var run = function(){ return new Function('var g = function(){ depth++; return g(); }; return g()')(); }; run();",
+    "in-nested-eval": "var depth = 0; var run = function(){ return eval(\"eval('var h = function(){ depth++; return h() + 1; }; h()')\"); }; run();",
+    "in-eval-callback": "var depth = 0; var run = function(){ return eval('var k = function(){ depth++; [1].forEach(function(){ k(); }); }; k()'); }; run();",
 }
 
 
@@ -103,6 +108,9 @@ PREHISTORY = [
     "null.x;",
     "try { [1].forEach(function(){ null.x; }); } catch (e4) { }",
     "try { new RegExp('('); } catch (e5) { }",
+    # ... and evaluations that succeed in unusual ways (nothing they leave behind may add up either)
+    "eval();", "eval(1);", "eval('');", "eval(undefined);", "eval('1 + 1');", "new Function();", "new Function('')();", "(0, eval)('2');",
+    "var ev = eval; ev('3');", "['1', '2'].map(eval);", "eval('eval()');", "try { eval(); eval(null.x); } catch (e6) { }",
 ]
 
 
@@ -112,7 +120,7 @@ def run_growth(case):
     ctx = m.Context(memory_limit=mem, time_limit=t)
     if name.startswith("after-failures:"):
         # a long-lived context: many evaluations that ended in every kind of error come first
-        for i in range(700):
+        for i in range(1000):
             try:
                 with pool.cpu_alarm(20):
                     ctx.eval(PREHISTORY[i % len(PREHISTORY)])
